@@ -2,6 +2,7 @@
 package c06
 
 import (
+	"github.com/sdcio/data-server/pkg/config"
 	"context"
 	"fmt"
 	"os"
@@ -34,6 +35,8 @@ type Op struct {
 type Case struct {
 	Palette []string `json:"palette"`
 	Ops     []Op     `json:"ops"`
+	// Sequential: validation runs with disable-concurrency (an option of the validation configuration)
+	Sequential bool `json:"sequential,omitempty"`
 }
 
 const (
@@ -47,7 +50,7 @@ var invalidFrags = vlib.FragmentIdx(func(f vlib.Fragment) bool { return f.Class 
 
 func gen(t *rapid.T) *Case {
 	o := vlib.HistGenOpts{Universe: vlib.UniPlain, Forms: []string{"typed"}}
-	c := &Case{Palette: vlib.GenPalette(t)}
+	c := &Case{Palette: vlib.GenPalette(t), Sequential: rapid.IntRange(0, 2).Draw(t, "sequential-validation") == 0}
 	n := rapid.IntRange(2, 9).Draw(t, "nops")
 	for i := 0; i < n; i++ {
 		op := Op{Kind: rapid.SampledFrom([]string{"set", "set", "set", "confirm", "confirm", "cancel", "cancel", "wait"}).Draw(t, "op")}
@@ -59,6 +62,10 @@ func gen(t *rapid.T) *Case {
 			if op.SetKind == "invalid" {
 				io.Kind, io.Leaves, io.Form = "set", nil, "typed"
 				io.Frags = []int{rapid.SampledFrom(invalidFrags).Draw(t, "invalid-fragment")}
+				if rapid.IntRange(0, 3).Draw(t, "many-invalid-fragments") == 0 {
+					// a request that yields many validation errors at once
+					io.Frags = append([]int{}, invalidFrags...)
+				}
 			}
 			op.Step = vlib.Step{Intents: []vlib.IntentOp{io}}
 			op.Short = rapid.IntRange(0, 2).Draw(t, "short-timeout") == 0
@@ -179,13 +186,20 @@ func Exec(c *Case) (nontrivial bool, labels []string, fail *vlib.Failure) {
 	ctx := context.Background()
 	env := vlib.MustEnv()
 	hc := &vlib.HistCase{Universe: "plain", Palette: c.Palette}
-	h, err := vlib.NewHistEnv(ctx, env, hc, vlib.HistEnvOpts{})
+	hopts := vlib.HistEnvOpts{}
+	if c.Sequential {
+		hopts.Validation = &config.Validation{DisableConcurrency: true}
+	}
+	h, err := vlib.NewHistEnv(ctx, env, hc, hopts)
 	if err != nil {
 		fmt.Fprintf(os.Stderr, "HARNESS-ERROR %v\n", err)
 		os.Exit(2)
 	}
 	defer h.DS.Stop()
 	r := &run{h: h, lab: map[string]bool{}}
+	if c.Sequential {
+		r.lab["validation-disable-concurrency"] = true
+	}
 	defer func() {
 		// do not leave a timer behind
 		if id, isOpen, _ := r.peek(); isOpen {
@@ -351,7 +365,26 @@ func Exec(c *Case) (nontrivial bool, labels []string, fail *vlib.Failure) {
 			}
 			sctx, cancel := context.WithTimeout(ctx, 10*time.Second)
 			t0 := time.Now()
-			rsp, err := h.DS.TransactionSet(sctx, id, tis, nil, timeout, op.SetKind == "dry-run")
+			// a Set on a free slot over a device that answers at once returns at once; one that never returns holds the
+			// datastore lock for good
+			type setRes struct {
+				rsp *sdcpb.TransactionSetResponse
+				err error
+			}
+			setCh := make(chan setRes, 1)
+			go func() {
+				rsp, err := h.DS.TransactionSet(sctx, id, tis, nil, timeout, op.SetKind == "dry-run")
+				setCh <- setRes{rsp, err}
+			}()
+			var rsp *sdcpb.TransactionSetResponse
+			var err error
+			select {
+			case x := <-setCh:
+				rsp, err = x.rsp, x.err
+			case <-time.After(40 * time.Second):
+				cancel()
+				return ret(vlib.Failf("C06:set-does-not-return", "%s: TransactionSet on a free slot has not returned after 40 s (its context ended after 10 s)", where))
+			}
 			took := time.Since(t0)
 			cancel()
 			h.Dev.FailAt = 0
